@@ -262,6 +262,14 @@ F1_GRAPH = ToyGraph([
 F1_OPS = [["mode", 0, "REF"], ["set", 0, "a", 1], ["set", 0, "b", 10], ["get", 0, "c"], ["set", 0, "a", 2],
           ["mode", 0, None], ["set", 0, "b", 20], ["revert", 0], ["get", 0, "c"]]
 
+# a per-individual revert whose discarded side is not finite (finding F2 of C02):  y = log2 x
+F2_GRAPH = ToyGraph([
+    dict(name="x", kind="ind", parents=[]),
+    dict(name="y", kind="linked", parents=["x"], fun=["log2", 0, []]),
+], 2, "float64")
+F2_OPS = [["mode", 0, "REF"], ["set", 0, "x", [1, 2]], ["get", 0, "y"], ["put", 0, "x", None, [-2, 2], True], ["get", 0, "y"],
+          ["revmask", 0, [True, False]], ["get", 0, "y"]]
+
 
 # ----------------------------------------------------------------------------- which __setitem__ is under test
 
@@ -332,6 +340,90 @@ def detect_setitem_variant():
     return fx, detail
 
 
+def detect_revert_mix_variant():
+    """Which rule does the per-individual `State.revert(subset)` of the tree under test use to combine the forked and the
+    current value?
+
+    Returns `(mix, detail)`: `"where"` — entry-wise selection `torch.where(mask, old, cur)` (since fe0cadd; Coq: xsem_where),
+                             `"blend"` — `old * mask + cur * ~mask` (before; NaN/inf on the discarded side leak; Coq: xsem),
+                             `None`    — not recognised (fail closed).
+    Two independent views that have to agree:
+      (a) the source of `State.revert`: either it multiplies by `to_revert` / `to_keep` and never selects, or it never does
+          and calls `torch.where` (directly or through the module-level helper `_select`, whose body must itself call
+          `torch.where` on the values and multiply nothing);
+      (b) probes on a real State: y = log2 x, x = [1,2] -> [-1,4], individual 0 rejected (cached y[0]: 0 or NaN), and
+          c = 2*x, x = [1,2] -> [inf,3], individual 0 rejected (cached c[0]: 2 or NaN)."""
+    import ast
+    import inspect
+    import math
+    import textwrap
+
+    import torch
+    from leaspy.variables import state as state_mod
+    from leaspy.variables.state import State, StateForkType
+    detail = dict(source=None, probe_log=None, probe_inf=None)
+    try:
+        fn = ast.parse(textwrap.dedent(inspect.getsource(State.revert))).body[0]
+
+        def marks(node):
+            mult = [n for n in ast.walk(node) if isinstance(n, ast.BinOp) and isinstance(n.op, ast.Mult)]
+            blend = [ast.unparse(n) for n in mult if any(w in ast.unparse(n) for w in ("to_revert", "to_keep", "mask"))]
+            calls = [ast.unparse(n.func) for n in ast.walk(node) if isinstance(n, ast.Call)]
+            return blend, mult, calls
+        blend, _, calls = marks(fn)
+        selects = [c for c in calls if c in ("torch.where", "_select")]
+        src = None
+        if blend and not selects:
+            src = "blend"
+        elif selects and not blend:
+            ok = True
+            if "_select" in selects:
+                helper = getattr(state_mod, "_select", None)
+                if helper is None:
+                    ok = False
+                else:
+                    hfn = ast.parse(textwrap.dedent(inspect.getsource(helper))).body[0]
+                    _, hmult, hcalls = marks(hfn)
+                    ok = ("torch.where" in hcalls) and not hmult
+            src = "where" if ok else None
+        detail["source"] = src
+        detail["source_marks"] = dict(multiplications_by_mask=blend[:4], selection_calls=selects)
+    except Exception as e:  # noqa
+        detail["source_error"] = f"{type(e).__name__}: {e}"
+    try:
+        G = ToyGraph.from_json(F2_GRAPH.to_json())
+        G.build()
+        st = State(G.dag)
+        st.auto_fork_type = StateForkType.REF
+        st["x"] = G.tensor([1, 2])
+        st["y"]
+        st.put("x", G.tensor([-2, 2]), accumulate=True)
+        st["y"]
+        st.revert(torch.tensor([True, False]))
+        y0, y1 = st._values["y"].tolist()
+        detail["probe_log"] = "where" if (y0 == 0.0 and y1 == 2.0) else "blend" if (math.isnan(y0) and y1 == 2.0) else None
+        detail["probe_log_value"] = [atom_json(y0), atom_json(y1)]
+        G2 = ToyGraph([dict(name="x", kind="ind", parents=[]),
+                       dict(name="c", kind="linked", parents=["x"], fun=["affine", 0, [2]])], 2, "float64")
+        G2.build()
+        st = State(G2.dag)
+        st.auto_fork_type = StateForkType.COPY
+        st["x"] = G2.tensor([1, 2])
+        st["c"]
+        st["x"] = G2.tensor(["inf", 3])
+        st["c"]
+        st.revert(torch.tensor([True, False]))
+        c0, c1 = st._values["c"].tolist()
+        detail["probe_inf"] = "where" if (c0 == 2.0 and c1 == 6.0) else "blend" if (math.isnan(c0) and c1 == 6.0) else None
+        detail["probe_inf_value"] = [atom_json(c0), atom_json(c1)]
+    except Exception as e:  # noqa
+        detail["probe_error"] = f"{type(e).__name__}: {e}"
+    views = (detail["source"], detail["probe_log"], detail["probe_inf"])
+    mix = views[0] if (views[0] is not None and views[0] == views[1] == views[2]) else None
+    detail["mix"] = mix
+    return mix, detail
+
+
 # ----------------------------------------------------------------------------- executing histories
 
 
@@ -384,6 +476,7 @@ class Session:
         self.mismatches = []          # oracle failures: dict(step, state, node, expected, observed, taint)
         # histories of the F1 shape, measured on the real state whatever the variant: per state, "an assignment was made
         # with auto-fork off while a fork was pending and no forked assignment / clear happened since"
+        self.nonfinite_masks = 0      # partial reverts applied while a doubly cached forked entry was inf / NaN
         self.after_unforked = [False]
         self.f1_events = []           # dict(kind: unforked-set-over-pending-fork | revert-after | read-after-revert, step, state, out)
         self._reverted_after = [False]
@@ -462,6 +555,16 @@ class Session:
         n_before = len(self.states)
         if not ok and k < len(self.states):
             self.taint[k].add("unforked" if op[0] in ("set", "put") else "mask")
+        if k < n_before and op[0] == "revmask" and self.states[k]._last_fork is not None:
+            # a per-individual revert applied while a doubly cached entry of the fork is not finite: where the blend
+            # old*mask + cur*~mask (before fe0cadd) and the selection differ
+            stk = self.states[k]
+            for c, old in stk._last_fork.items():
+                cur = stk._values[c]
+                if old is not None and cur is not None and not (bool(old.isfinite().all()) and bool(cur.isfinite().all())):
+                    self.taint[k].add("nonfinite-mask")
+                    self.nonfinite_masks += 1
+                    break
         over_pending = forked = False
         if k < n_before and op[0] in ("set", "put"):
             st = self.states[k]
@@ -570,10 +673,18 @@ def run_ops(G, ops, fx=False, oracle=True):
 
 
 def rand_value(rng, G, name, small=False):
+    """small integers; on float64 graphs that ask for it (`G.nonfinite`), now and then +-inf (sums, products by the non-zero
+    coefficients and differences of those stay in the exact vocabulary: finite integers, +-inf, NaN)"""
     lo, hi = (-3, 3) if small else (-9, 9)
+    nf = getattr(G, "nonfinite", False) and G.dtype == "float64"
+
+    def one():
+        if nf and rng.random() < 0.12:
+            return rng.choice(["inf", "-inf", "inf"])
+        return rng.randint(lo, hi)
     if G.by_name.get(name, {}).get("kind") == "ind":
-        return [rng.randint(lo, hi) for _ in range(G.n_ind)]
-    return rng.randint(lo, hi)
+        return [one() for _ in range(G.n_ind)]
+    return one() if (nf and rng.random() < 0.3) else rng.randint(lo, hi)
 
 
 def gen_history(rng, G, malformed=False, length=None, max_states=3, fx=False):
